@@ -131,6 +131,13 @@ def run(ctx):
             for (s, lab, term, gspan) in dom.dominating_guards(b, ub, org):
                 r = dom.relation(term, lab)
                 if not r:
+                    # `match a.cmp(&b) { Equal => .., Less | Greater => Err(..) }`: the discriminant of the ordering
+                    pt = dom.parse_term(term)
+                    if isinstance(pt, tuple) and pt[0] == "discr" and len(pt[1]) == 1 and isinstance(pt[1][0], tuple) and pt[1][0][0] == "std::cmp::Ord::cmp" and len(pt[1][0][1]) == 2 \
+                            and lab in (0, 1, 255, -1):
+                        a_, b_ = (dom.unparse_term(x) for x in pt[1][0][1])
+                        r = dom.relation("%s(%s, %s)" % ({0: "Eq", 1: "Gt", 255: "Lt", -1: "Lt"}[lab], a_, b_), True)
+                if not r:
                     continue
                 op, diff = r
                 names = [k for k in diff if "var_names" in k]
@@ -147,7 +154,7 @@ def run(ctx):
                 if not holds:
                     continue
                 # the other edge must end in Err
-                others = [tgt for (l2, tgt) in dom.switch_edges(b, s) if l2 != lab]
+                others = [tgt for (l2, tgt) in dom.switch_edges(b, s) if l2 != lab and b["blocks"][tgt]["term"]["k"] != "unreachable"]
                 oe = all(dom.reaches_only_err(b, tgt)[0] for tgt in others)
                 if oe:
                     good = True
